@@ -88,12 +88,9 @@ class BImm11Imm6Relocation(Relocation):
         imm32 = wrap_negative(offset >> 1, 32)
         imm11 = imm32 & 0x7FF
         imm6 = (imm32 >> 11) & 0x3F
-        s = (imm32 >> 17) & 0x1
-        # TODO: determine i1 and i2 better!
-        i1 = s
-        i2 = s
-        j1 = i1
-        j2 = i2
+        j1 = (imm32 >> 17) & 0x1
+        j2 = (imm32 >> 18) & 0x1
+        s = (imm32 >> 19) & 0x1
         data[2] = imm11 & 0xFF
         data[3] |= (imm11 >> 8) & 0x7
         data[3] |= (j1 << 5) | (j2 << 3)
